@@ -433,6 +433,8 @@ func init() {
 			// h: a backend that never answers, with the server's write timeout (2 s) shorter than backend_read (5 s): the
 			// exchange is given up at the write timeout and is a failure like any other
 			fixed := []string{"fffToo", "rrTo", "xxTo", "ffToTo", "ufTfTo", "fafafIfo", "oofoIfof", "rfxToTo", "fTfTfTo", "ffTooffo", "nfnfTnn", "hho", "hhhToo", "fhTo",
+				// S: 29 s, just short of the timeout - counted from the moment a slow failure was known, not from its start
+				"hSo", "hhSoTo", "hhhSo", "fhSoo", "hThSo",
 				// l: the rate limiter is on as well and a client whose bucket is empty asks again: answered 429 by the limiter,
 				// no business of the breaker's (neither a trial nor a failure)
 				"ffTlo", "ffTllfTo", "lfflTlo", "ufTlfTlo"}
@@ -500,7 +502,7 @@ func c07SysRun(e *vh.Env, c c07Sys, o *vh.Out, prop string) {
 		vh.Settle()
 	}
 	m := vh.NewBreakerModel(c.FT, c.ST, c.MR, 10*time.Second, 30*time.Second)
-	adv := map[byte]time.Duration{'a': 3 * time.Second, 'I': 11 * time.Second, 'T': 31 * time.Second}
+	adv := map[byte]time.Duration{'a': 3 * time.Second, 'I': 11 * time.Second, 'T': 31 * time.Second, 'S': 29 * time.Second}
 	origin := time.Now()
 	o.Eval(1)
 	o.Distinct(vh.J(c))
@@ -586,6 +588,15 @@ func c07SysRun(e *vh.Env, c c07Sys, o *vh.Out, prop string) {
 			return
 		}
 		st := sys.LB.VerifBreaker().State().String()
+		if ev == 'h' {
+			// the backend never answers and nothing but the write timeout (2 s) ends the exchange: the failure cannot have
+			// been reported to the breaker before that, nor after the client saw the exchange end
+			d := time.Duration(rs.DurNS)
+			if d > 2*time.Second {
+				d = 2 * time.Second
+			}
+			m.Done = t + d
+		}
 		if kind, desc := m.Step(t, out, st); kind != "" {
 			o.Viol(fmt.Sprintf("%s|sys|%s", prop, kind), fmt.Sprintf("%s ft=%d st=%d mr=%d seq=%s step %d (%c -> %s, state %s): %s", c.Strategy, c.FT, c.ST, c.MR, c.Seq, i, ev, out, st, desc),
 				map[string]any{"step": i, "outcome": out.String(), "state": st})
